@@ -79,6 +79,9 @@ class Doc:
             root.append(d)
         self.tail = self.soup.new_tag('b')
         root.append(self.tail)
+        # a second target whose class attribute is a plain string (XML documents, hand-assigned values)
+        self.q = self.soup.new_tag('q')
+        root.append(self.q)
 
     def set(self, value, escaped):
         def put(el, v):
@@ -86,6 +89,10 @@ class Doc:
             el['class'] = [v]
             el['a'] = v
         put(self.p, value)
+        self.q.attrs.clear()
+        self.strclass = not any(c in ' \t\n\r\f' for c in value) and value != ''
+        if self.strclass:
+            self.q['class'] = value                  # one class token by CSS rules (no CSS white space inside)
         alts = [value + 'x', 'x' + value, value[:-1], value[1:], escaped if escaped != value else value + '\\', value.swapcase()]
         for d, v in zip(self.decoys, alts):
             put(d, v if v != value else v + '~')
@@ -100,7 +107,7 @@ def check_string(sv, doc, s):
         return 'escape(%s) returned %r' % (ascii(s), esc)
     value = s.replace('\x00', '�')
     doc.set(value, esc)
-    forms = [('#' + esc, [doc.p]), ('.' + esc, [doc.p]), ('[a=' + esc + ']', [doc.p]), ('p#' + esc + ' > span.zq9-span', [doc.span]),
+    forms = [('#' + esc, [doc.p]), ('.' + esc, [doc.p] + ([doc.q] if doc.strclass else [])), ('[a=' + esc + ']', [doc.p]), ('p#' + esc + ' > span.zq9-span', [doc.span]),
              ('b, .' + esc + ' span', [doc.span, doc.tail])]
     for text, want in forms:
         st, got = monitors.guarded_call(sv.select, text, doc.soup, budget=5.0)
